@@ -16,7 +16,7 @@ import enum
 from opsim import seams, lin
 from opsim.core import CLOCK, derive, HarnessError
 from opsim.sched import Sched, SimLock
-from opsim.util import call, weighted
+from opsim.util import call, weighted, quiet
 
 from operon_ai.state.metabolism import ATP_Store, EnergyType
 from operon_ai.topology.loops import CoherentFeedForwardLoop
@@ -210,8 +210,8 @@ def run(plan, k):
     TOPO.clear()
     if topo:
         # real call sites spending from the shared store: their consume() calls are recorded at instance level
-        TOPO["loop"] = CoherentFeedForwardLoop(budget=stores[0], enable_cache=topo["cache"], silent=True)
-        TOPO["quorum"] = QuorumSensing(n_agents=topo["voters"], budget=stores[0], silent=True)
+        TOPO["loop"] = CoherentFeedForwardLoop(budget=stores[0], enable_cache=topo["cache"], silent=quiet())
+        TOPO["quorum"] = QuorumSensing(n_agents=topo["voters"], budget=stores[0], silent=quiet())
         real_consume = stores[0].consume
 
         def consume_rec(cost, operation="unknown", energy_type=EnergyType.ATP, allow_debt=False, priority=0):
